@@ -71,6 +71,7 @@ class Body:
         self.blocks = d['blocks']
         self.locals = d['locals']
         self.argc = d['argc']
+        self.generics = d.get('generics') or []
         self.span = d['span']
         self._succ = None
         self._pred = None
